@@ -297,21 +297,24 @@ theorem copy_bytes_is_the_source (m : Mem) (size src dst n : Nat) :
 /-! ### refinement of the abstract vector over whole histories -/
 
 /-- **C01 as a refinement (Props/Refine.lean)**: from any world satisfying the invariant in which vector `v` shows
-the items of an abstract `Vec` (`Refine.Rel`; every fault-free reachable world does, `Refine.rel_of_reach`), every
-sequence - of any length, with any indices - of erased and typed `push` / `insert`, of `pop` / `remove` /
-`swap_remove` whose handle is dropped, and of `clear` leads to a world that shows exactly what the abstract vector
-shows after the same sequence (`Spec.Steps`: append, `insertIdx`, drop the last, `eraseIdx`, overwrite-with-last and
-shrink, empty; out-of-range calls change nothing), where the abstract side may refuse an operation that needs room
-only like the storage does (`Refine.push_with_room`: with `len < capacity` a push is never refused). -/
+the items and the capacity of an abstract `Vec` (`Refine.Rel`; every fault-free reachable world does,
+`Refine.rel_of_reach`), every sequence - of any length, with any indices and amounts - of erased and typed `push` /
+`insert`, of `pop` / `remove` / `swap_remove` whose handle is dropped or (typed) whose value is taken, of `clear`,
+`drain(a..b)` dropped unconsumed, `reserve` / `reserve_exact` / `shrink_to_fit` / `shrink_to`, typed `swap(i, j)` and
+`*at_mut(i) = value` leads to a world that shows exactly what the abstract vector shows after the same sequence
+(`Spec.Steps`: append, `insertIdx`, drop the last, `eraseIdx`, overwrite-with-last and shrink, empty, exchange,
+overwrite; out-of-range calls change nothing). The abstract side refuses a value only when the vector is full
+(`Spec.Room`: with `len < capacity` nothing is refused and the capacity stays), grows only when full and never on a
+fixed storage, and capacity requests never touch the items. -/
 theorem history_refines_vec (cfg : Cfg) (v ty : Nat) (ops : List Refine.VOp) (w : World) (s : Refine.Spec)
-    (h : Refine.Rel v ty w s) :
+    (h : Refine.Rel v ty w s) (hall : ∀ op ∈ ops, op.Allowed s.fixed) :
     ∃ s', Refine.Spec.Steps s ops s' ∧ Refine.Rel v ty (Refine.runOps cfg v ty w ops) s' :=
-  Refine.history_refines cfg v ty ops w s h
+  Refine.history_refines cfg v ty ops w s h hall
 
 /-- … starting from wherever a history of core operations under arbitrary fault injection has led -/
 theorem reachable_worlds_are_related (cfg : Cfg) (w : World) (hr : Hist.Reach cfg w) (hf : w.fault = none) (v : Nat)
     (d : VecSt) (hv : w.vecs[v]? = some d) (hl : d.live = true) :
-    ∃ items, Refine.Rel v d.ty w ⟨items, w.created⟩ :=
+    ∃ items, Refine.Rel v d.ty w ⟨items, w.created, d.cap, !VecSt.resizable d.bk⟩ :=
   Refine.rel_of_reach cfg w hr hf v d hv hl
 
 end C01
